@@ -317,7 +317,9 @@ class _Twin:
         elif ev == "tstop":
             st = ["p"]
             self.stops.append(st)
-            self.svc.stopService().addCallback(lambda _: st.__setitem__(0, "d"))
+            # the consumer goes on with asynchronous work of its own (its callback returns a Deferred that is still
+            # unfired): that must not hold up any OTHER stopService caller (seeded change C58-4 shared one Deferred)
+            self.svc.stopService().addCallback(lambda v: (st.__setitem__(0, "d" if v is None else "VALUE"), defer.Deferred())[1])
         elif ev == "tconn" and self.live():
             att = self.live()[0]
             proxy = att["factory"].buildProtocol(None)
@@ -488,7 +490,12 @@ class World:
             d = self.svc.stopService()
             st = ["p", len(self.attempts)]
             self.stops.append(st)
-            d.addCallback(lambda _: st.__setitem__(0, "d" if st[0] == "p" else "TWICE"))
+            d.addCallback(lambda v: st.__setitem__(0, ("d" if v is None else "VALUE") if st[0] == "p" else "TWICE"))
+            if not (restart or angry):
+                # the consumer goes on with asynchronous work of its own: its callback returns a Deferred that is still
+                # unfired.  That must not hold up (or change the result seen by) any OTHER stopService caller — each
+                # caller's Deferred fires on its own (seeded change C58-4 handed one shared Deferred to all callers).
+                d.addCallback(lambda _: defer.Deferred())
             if restart:
                 d.addCallback(self._restart)
             if angry:
@@ -720,6 +727,9 @@ def _check(case):
         now_stop = [s[0] for s in w.stops]
         if "TWICE" in now_stop:
             return bad("stop-fired-twice", "a stopService Deferred fired twice")
+        if "VALUE" in now_stop:
+            return bad("stop-fired-with-foreign-value", "a stopService Deferred fired with a value other than None "
+                       "(another consumer's callback result leaked into it)")
         for i, q in enumerate(now_stop):
             p = pre_stop[i] if i < len(pre_stop) else "p"
             if p == "p" and q == "d" and oc:
